@@ -37,7 +37,15 @@ inductive JStmt where
   | callv (n : Nat)
 deriving Repr, DecidableEq
 
-/-- the bytes code87c800.c emits at program counter `pc`; `none` = an error is reported (no code).
+/-- `DecodeCALLP`: `fpu` = `mFirstPassUnknownOrQuestionable(Flags)` of the operand (a forward label in the first pass, whose value
+is then the program counter) – the page of such a value is not judged (since the repair of code87c800.c) -/
+def callp (fpu : Bool) (target : Nat) : Option (List Nat) :=
+  if target ≥ 0x10000 then none
+  else if target / 256 ≠ 0xff ∧ target / 256 ≠ 0 ∧ fpu = false then none
+  else some [0xfd, target % 256]
+
+/-- the bytes code87c800.c emits at program counter `pc` in the final pass (every symbol has its value, no flag is set);
+`none` = an error is reported (no code).
 Address values are 16-bit (`Int16` range check of the expression evaluator: 0…65535 for what a label can be). -/
 def encode (pc : Nat) : JStmt → Option (List Nat)
   | .jrs cond target =>
@@ -63,11 +71,14 @@ def encode (pc : Nat) : JStmt → Option (List Nat)
     if target ≥ 0x10000 then none
     else if target / 256 = 0xff then some [0xfd, target % 256]
     else some [0xfc, target % 256, target / 256]
-  | .callp target =>
-    if target ≥ 0x10000 then none
-    else if target / 256 ≠ 0xff ∧ target / 256 ≠ 0 then none
-    else some [0xfd, target % 256]
+  | .callp target => callp false target
   | .callv n => if n ≥ 16 then none else some [0xc0 ||| (n % 16)]
+
+/-- a pass in which the address operand is still first-pass-unknown (`fpu`): only `DecodeCALLP` looks at that flag (the relative
+jumps look at `mSymbolQuestionable` only; the value a forward label has in the first pass, the program counter, is in their range) -/
+def encodeF (fpu : Bool) (pc : Nat) : JStmt → Option (List Nat)
+  | .callp target => callp fpu target
+  | js => encode pc js
 
 /-- mnemonic and condition of a jump form, as in the format string of the case -/
 inductive Shape where
